@@ -40,9 +40,16 @@ inductive CbKind where
   | resp | fin
 deriving DecidableEq, Repr, Inhabited
 
-/-- a callback registered by the hook at `stage`; its id is its index in `Cfg.regs` -/
+/-- who registers a callback: the hook at a pipeline point, or the callback with id `parent` while it runs
+(`request.add_…_callback` called from inside a callback: the deque is still being drained) -/
+inductive Stage where
+  | hook (p : Point)
+  | cb (parent : Nat)
+deriving DecidableEq, Repr, Inhabited
+
+/-- a callback registered at `stage`; its id is its index in `Cfg.regs` -/
 structure Reg where
-  stage : Point
+  stage : Stage
   kind : CbKind
   fault : Option Kind
 deriving DecidableEq, Repr, Inhabited
@@ -83,9 +90,10 @@ inductive Outcome where
   | raised (e : Exc)
 deriving DecidableEq, Repr, Inhabited
 
-/-- observation tree: own events of a request, its outcome, the stack depth after it, the subrequests it ran -/
+/-- observation tree: own events of a request, its outcome, the stack depth after it, the subrequests it ran, how
+many response / finished callbacks are left in its deques afterwards -/
 inductive Tr where
-  | node (own : List Ev) (out : Outcome) (depthAfter : Nat) (kids : List Tr)
+  | node (own : List Ev) (out : Outcome) (depthAfter : Nat) (kids : List Tr) (left : Nat × Nat)
 deriving Repr, Inhabited
 
 structure St where
@@ -155,7 +163,7 @@ def excOf : Kind → Exc
   | _ => .http
 
 /-- the callbacks a hook at `stage` registers: log + append to the request's deque, in `regs` order -/
-def register (stage : Point) : List Reg → Nat → M Unit
+def register (stage : Stage) : List Reg → Nat → M Unit
   | [], _ => pure ()
   | r :: rest, i => fun s =>
     if r.stage == stage then
@@ -171,7 +179,7 @@ Returns `true` when the hook answers "no" (soft). -/
 def hook (cfg : Cfg) (self : Path) (p : Point) : M Bool := do
   let st ← getStack
   emit (.hook p (st.head? == some self) st.length)
-  register p cfg.regs 0
+  register (.hook p) cfg.regs 0
   match faultOf cfg p with
   | none => pure false
   | some .soft => if isSoftPoint p then pure true else throw .http
@@ -196,19 +204,39 @@ def resume (self : Path) : M Unit := do
 /-- the failure scheduled for callback `i` -/
 def cbFault (cfg : Cfg) (i : Nat) : Option Kind := (cfg.regs[i]?).bind (·.fault)
 
-/-- `_process_response_callbacks` / `_process_finished_callbacks`: pop the left end, run it; an exception leaves
-the rest in the deque (nothing runs them later) -/
-def runCbs (cfg : Cfg) (self : Path) (k : CbKind) : List Nat → M Unit
-  | [] => pure ()
-  | i :: rest => do
-    let st ← getStack
-    emit (.cb k i (st.head? == some self) st.length)
-    match cbFault cfg i with
-    | some f => throw (excOf f)
-    | none => runCbs cfg self k rest
+/-- the model runs at most this many callbacks per deque and request (the code has no bound: a callback that
+re-registers itself spins forever); the theorems say "fewer than `drainFuel` ran" where they need the loop to have
+ended by itself -/
+def drainFuel : Nat := 1000
 
-def takeRespQ : M (List Nat) := fun s => .ok s.respQ { s with respQ := [] }
-def takeFinQ : M (List Nat) := fun s => .ok s.finQ { s with finQ := [] }
+def getQ (k : CbKind) (s : St) : List Nat :=
+  match k with
+  | .resp => s.respQ
+  | .fin => s.finQ
+
+def setQ (k : CbKind) (q : List Nat) (s : St) : St :=
+  match k with
+  | .resp => { s with respQ := q }
+  | .fin => { s with finQ := q }
+
+/-- `_process_response_callbacks` / `_process_finished_callbacks`: `while callbacks: callback = callbacks.popleft();
+callback(…)` — a FIFO work-list drained until it is EMPTY: a callback that runs may append to either deque (the
+registrations with stage `cb i`), and what it appends to the deque being drained runs in the same pass.  A callback
+logs, registers, then fails as scheduled; an exception leaves the rest in the deque (nothing runs it later). -/
+def drain (cfg : Cfg) (self : Path) (k : CbKind) : Nat → M Unit
+  | 0 => fun s => .ok () s
+  | n + 1 => fun s =>
+    match getQ k s with
+    | [] => .ok () s
+    | i :: rest =>
+      let s1 := setQ k rest s
+      let s2 := { s1 with log := s1.log ++ [Ev.cb k i (s1.stack.head? == some self) s1.stack.length] }
+      match register (.cb i) cfg.regs 0 s2 with
+      | .err e s3 => .err e s3
+      | .ok _ s3 =>
+        match cbFault cfg i with
+        | some f => .err (excOf f) s3
+        | none => drain cfg self k n s3
 
 def Req.cfg : Req → Cfg
   | .mk c _ => c
@@ -224,7 +252,7 @@ def otherId : Nat := 1000
 
 /-- the schedule of that other request: only its exception view can fail -/
 def otherCfg (f : Option Kind) : Cfg :=
-  { useTweens := false, route := false, faults := (match f with | some k => [(.excView, k)] | none => []),
+  { useTweens := false, route := false, faults := (match f with | some k => [(Point.excView, k)] | none => []),
     regs := [], explicitXv := none }
 
 /-- `request.invoke_exception_view(exc_info, request=other)` from the view body of `self`: view.py pushes a frame for
@@ -242,7 +270,7 @@ def invokeOther (xv : Bool) (t : Kind × Option Kind × Bool) (self : Path) : M 
   let s1 : St := { s with
     log := s.log ++ [Ev.sub otherId, Ev.resume (r.st.stack.head? == some self) r.st.stack.length],
     stack := r.st.stack,
-    kids := s.kids ++ [Tr.node r.st.log out r.st.stack.length []] }
+    kids := s.kids ++ [Tr.node r.st.log out r.st.stack.length [] (r.st.respQ.length, r.st.finQ.length)] }
   match out with
   | .resp => .ok () s1
   | .raised e => .err e s1
@@ -309,15 +337,13 @@ def probed (xv : Bool) (cfg : Cfg) (self : Path) (useTw : Bool) (subsM : M Unit)
 
 /-- what follows the chain inside the `try` of Router.invoke_request -/
 def respPhase (cfg : Cfg) (self : Path) : M Unit := do
-  let q ← takeRespQ
-  runCbs cfg self .resp q
+  drain cfg self .resp drainFuel
   let _ ← hook cfg self .newResponse
   pure ()
 
 /-- Router.finish_request -/
-def finPhase (cfg : Cfg) (self : Path) : M Unit := do
-  let q ← takeFinQ
-  runCbs cfg self .fin q
+def finPhase (cfg : Cfg) (self : Path) : M Unit :=
+  drain cfg self .fin drainFuel
 
 /-- Router.invoke_request -/
 def invokeRequest (xv : Bool) (cfg : Cfg) (self : Path) (useTw : Bool) (subsM : M Unit) : M Unit :=
@@ -335,7 +361,7 @@ mutual
       let r := invokeRequest xv cfg self (top || cfg.useTweens) (runSubs xv subs self 0)
                  { stack := self :: stack0 }                            -- RequestContext.begin
       let stack1 := r.st.stack.tail                                     -- RequestContext.end
-      (.node r.st.log (outcomeOf r) stack1.length r.st.kids, outcomeOf r, stack1)
+      (.node r.st.log (outcomeOf r) stack1.length r.st.kids (r.st.respQ.length, r.st.finQ.length), outcomeOf r, stack1)
 
   /-- the view body's subrequests, in order; an exception of one propagates out of the view -/
   def runSubs (xv : Bool) : Reqs → Path → Nat → M Unit
